@@ -202,6 +202,15 @@ def rule_table(cols):
         ("non-aggregating project expression", f".project({{'n1': '{c1} + 1'}}, group_by=['{c0}'])", False),
         ("too-complex project expression", f".project({{'n1': '{c1}.sum() + 1'}}, group_by=['{c0}'])", False),
         ("simple project", f".project({{'n1': '{c1}.sum()'}}, group_by=['{c0}'])", True),
+        # "too complex" has two shapes: a calculation ON an aggregate (above) and an aggregate OF a calculation (below)
+        ("project aggregate of a calculation", f".project({{'n1': '({c1} + {c1}).max()'}}, group_by=['{c0}'])", False),
+        ("project aggregate of a method result", f".project({{'n1': '{c1}.abs().mean()'}}, group_by=['{c0}'])", False),
+        ("project method of an aggregate", f".project({{'n1': '{c1}.max().abs()'}}, group_by=['{c0}'])", False),
+        ("project aggregate of a constant", f".project({{'n1': '(1).sum()'}}, group_by=['{c0}'])", True),
+        ("window aggregate of a calculation", f".extend({{'n1': '({c1} + {c1}).max()'}}, partition_by=['{c0}'])", False),
+        ("window aggregate of a method result", f".extend({{'n1': '{c1}.abs().mean()'}}, partition_by=['{c0}'])", False),
+        ("ordered window function of a calculation", f".extend({{'n1': '({c1} + 1).shift()'}}, partition_by=['{c0}'], order_by=['{c1}'])", False),
+        ("window aggregate of a constant", f".extend({{'n1': '(1).sum()'}}, partition_by=['{c0}'])", True),
         ("ordered window function in project", f".project({{'n1': '{c1}.cumsum()'}}, group_by=['{c0}'])", False),
         ("unknown group column", f".project({{'n1': '{c1}.sum()'}}, group_by=['nosuch'])", False),
         ("select unknown column", ".select_columns(['nosuch'])", False),
